@@ -59,6 +59,10 @@ template <class V> struct LeafSender {
     Op(int i, R&& rr) : id(i), r((R &&) rr) { g_w->leaves[(size_t)id].connected = true; }
     Op(Op&&) = delete;
     ~Op() {
+      // a scheduling point inside the destructor, then a write to the operation state: whoever owns the enclosing storage (the scope's
+      // spawn_future shared state) must keep it alive until the nested operation has been destroyed (ASan sees the write otherwise)
+      detsched::step();
+      { volatile int* p = &id; *p = *p; }
       auto& L = g_w->leaves[(size_t)id];
       if (L.started && !L.completed) vk::ctx().fail("C02", "child_op_destroyed_before_completion", "leaf %d's operation state was destroyed while running", id);
       L.destroyed = true;
